@@ -1,6 +1,7 @@
 package main
 
 import (
+	"fmt"
 	"go/ast"
 	"go/token"
 	"go/types"
@@ -76,4 +77,122 @@ func (c *FnCtx) implementsTerm(v Term, iface types.Type) string {
 	fn := "impl." + typeShortName(iface)
 	d.declFun(fn, "Int", "Bool")
 	return sApp(fn, sApp("dyntype", v.S))
+}
+
+// sliceElemGo: the Go element type of a slice term: from the term's own Go type when known (several
+// Go slice types share one SMT slice sort), else the type recorded when the sort was created.
+func sliceElemGo(s Term) types.Type {
+	if s.T != nil {
+		if st, ok := s.T.Underlying().(*types.Slice); ok {
+			return st.Elem()
+		}
+	}
+	return s.Sort.ElemGo
+}
+
+// typeDesignator resolves the type part of a `Type.field` designator: a bare struct type name
+// (local package, transparent dependency struct, or unique in the module) or a qualified one
+// (`pkgalias.Type`, resolved in the file scope of the contract's package).
+func (sc *SpecCtx) typeDesignator(e SExpr) *types.Named {
+	switch x := e.(type) {
+	case *SIdent:
+		if _, bound := sc.env[x.Name]; bound {
+			return nil
+		}
+		if sc.c.e.ghosts[x.Name] != nil {
+			return nil
+		}
+		return sc.lookupTypeName(x.Name)
+	case *SField:
+		id, ok := x.X.(*SIdent)
+		if !ok {
+			return nil
+		}
+		if _, bound := sc.env[id.Name]; bound {
+			return nil
+		}
+		if sc.lookupTypeName(id.Name) != nil || sc.c.e.ghosts[id.Name] != nil {
+			return nil // Type.field used as an expression, not pkg.Type
+		}
+		var t types.Type
+		func() {
+			defer func() { recover() }()
+			t = sc.c.e.resolveGoType(id.Name+"."+x.Name, sc.pkg, sc.pos)
+		}()
+		if t == nil {
+			return nil
+		}
+		if n, ok := types.Unalias(t).(*types.Named); ok {
+			if _, ok := n.Underlying().(*types.Struct); ok {
+				return n
+			}
+		}
+	}
+	return nil
+}
+
+func structField(n *types.Named, name string) *types.Var {
+	stt, ok := n.Underlying().(*types.Struct)
+	if !ok {
+		return nil
+	}
+	for i := 0; i < stt.NumFields(); i++ {
+		if stt.Field(i).Name() == name {
+			return stt.Field(i)
+		}
+	}
+	return nil
+}
+
+// exitTag names the exit point of a path: "@ret<k>" for the k-th return statement of the function
+// (source order, function literals excluded) or "@end" when the body falls off its end. Postcondition
+// obligations are named per exit point so that a known finding can be pinned to one exit.
+func (c *FnCtx) exitTag(o Outcome) string {
+	if o.ret == nil {
+		return "@end"
+	}
+	if c.retOrd == nil {
+		c.retOrd = map[*ast.ReturnStmt]int{}
+		n := 0
+		ast.Inspect(c.fi.Body, func(nd ast.Node) bool {
+			switch x := nd.(type) {
+			case *ast.FuncLit:
+				return false
+			case *ast.ReturnStmt:
+				n++
+				c.retOrd[x] = n
+			}
+			return true
+		})
+	}
+	if k, ok := c.retOrd[o.ret]; ok {
+		return fmt.Sprintf("@ret%d", k)
+	}
+	return "@ret"
+}
+
+// resetDecls gives every function under contract its own declaration registry, so that the text of
+// its queries (symbol numbering, declared constants) does not depend on which other functions were
+// processed before it in the same run: solver behaviour on quantified goals is sensitive to that.
+func (e *Engine) resetDecls() {
+	old := e.d
+	d := newDecls(old.modPath)
+	for k, v := range old.opaque {
+		d.opaque[k] = v
+	}
+	for k, v := range old.transparent {
+		d.transparent[k] = v
+	}
+	for k, v := range old.typeTags { // type tags stay stable across functions
+		d.typeTags[k] = v
+	}
+	e.d = d
+	binderCounter = 0
+	for _, g := range e.ghosts {
+		g.Sort = nil
+		g.GT = nil
+	}
+	if err := e.registerAxioms(); err != nil {
+		panic(toolErr("axioms: %v", err))
+	}
 }
